@@ -72,9 +72,10 @@ def dec_entries(names, blobs):
         if n is None or n in seen:
             continue
         seen.add(n)
+        if G.impl_valid_name(n):
+            words += ['K', enc(n)]
         if not py_lookup(n):
             continue
-        words += ['K', enc(n)]
         for b in blobs:
             try:
                 t = codecs.getdecoder(n)(b)[0]
@@ -224,7 +225,8 @@ class C08(Check):
                     ctx.violate('the content is decoded with the chosen encoding (text content is left alone)',
                                 c.to_json(), {'impl': r[2], 'spec': want[2]})
             elif want[2] != 'lookup' and got.startswith('ERR'):
-                ctx.violate('reading a sheet in a known encoding does not raise', c.to_json(), {'impl': got})
+                ctx.violate('reading a sheet in a known encoding does not raise', c.to_json(), {'impl': got},
+                            known='C08-short-bom' if (G.short_bom(c.content) and want[1] == 2) else None)
 
     # == B: import trees =================================================================================
     def part_b(self, ctx, cssutils):
@@ -272,6 +274,8 @@ class C08(Check):
                 return
             ctx.violate('loading sheets in known encodings does not raise', c.to_json(), {'impl': res['status']})
             return
+        if c.has_unknown_names():
+            return          # outside the quantifier (the correspondence still covers these cases)
         kf = None
         if c.mode == 'pu' and not c.override:
             kf = 'C08-parseurl-override'
@@ -286,6 +290,11 @@ class C08(Check):
 
     def check_edits(self, ctx, cssutils, histories):
         valid = [n for n in G.EDIT_NAMES if G.impl_valid_name(n)]
+        for n in G.EDIT_NAMES + G.UNKNOWN + [x for v in G.SPELL.values() for x in v] + G.TARGETS:
+            want = G.spec_valid_name(n)
+            if want != 'either' and (want == 'yes') != G.impl_valid_name(n):
+                ctx.violate('CSSCharsetRule accepts exactly the names that are one IDENT and a text encoding of the runtime',
+                            {'kind': 'name', 'name': n}, {'impl_accepts': G.impl_valid_name(n), 'spec': want})
         lines = [' '.join(['sheet', 'V'] + [enc(n) for n in valid] + ['O'] + [G.op_word(o) for o in ops])
                  for ops in histories]
         out = ctx.driver(lines) if ctx.model_ok else [None] * len(lines)
